@@ -1,3 +1,4 @@
+import re
 """T-nopanic: inventory of every potential panic site in the crate-local functions reachable from a set of entries,
 each discharged by the prover, by a typed rule, or by an audited entry whose required facts are re-checked."""
 import json
@@ -153,6 +154,7 @@ class NoPanic:
         self._never_err = {}
         self._tags_of_fn = {}
         self.used_audits = set()
+        self._audit_pool = None
         self.field_invariants = {}
         from lib import field_min_len
         for (adt, field) in (("roughenough::merkle::MerkleTree", "levels"),):
@@ -424,14 +426,34 @@ class NoPanic:
 
     # ------------------------------------------------------------------ recording
     def rec(self, fn, bb, kind, desc, status, detail, trivial=False):
-        key = "%s/%s(%s)" % (fn.path, kind, desc)
+        # unwrap() and expect(..) are the same obligation: rewording a panic message must not rename a site
+        base = "%s/%s(%s)" % (fn.path, "unwrap" if kind == "expect" else kind, desc)
+        key = base
         n = sum(1 for r in self.records if r["key"] == key or r["key"].startswith(key + "#"))
         if n:
             key = "%s#%d" % (key, n + 1)
         rec = {"key": key, "fn": fn.path, "bb": bb, "kind": kind, "status": status, "detail": detail, "loc": fn.loc(bb), "trivial": trivial}
         if status == "open":
-            a = self.audited.get(key)
+            # audited entries are matched by their base key with multiplicity (k entries cover k open sites of that shape), so that a proved or
+            # newly inserted sibling site does not shift the ordinals
+            a = None
+            akey = None
+            if self._audit_pool is None:
+                self._audit_pool = {}
+                for k2, e2 in self.audited.items():
+                    self._audit_pool.setdefault(re.sub(r"#\d+$", "", k2), []).append(k2)
+                for lst in self._audit_pool.values():
+                    lst.sort()
+            pool = self._audit_pool.get(base, [])
+            if key in pool:
+                akey = key
+            elif pool:
+                akey = pool[0]
+            if akey is not None:
+                pool.remove(akey)
+                a = self.audited.get(akey)
             if a is not None:
+                key_used = akey
                 missing = []
                 for req in a.get("requires", []):
                     ok, why = (self.req_check(req) if self.req_check else (False, "no requirement checker"))
@@ -443,7 +465,7 @@ class NoPanic:
                 else:
                     rec["status"] = "audited"
                     rec["detail"] = "audited: %s (requires %s)" % (a["reason"], a.get("requires", []))
-                    self.used_audits.add(key)
+                    self.used_audits.add(key_used)
         self.records.append(rec)
         return rec
 
